@@ -18,6 +18,12 @@ TGET = Function("TGET", R, StringSort(), U)      # getattr(other, name)
 
 class AttrExec(SeqExec):
     def global_name(self, name, p):
+        if name == "json":
+            yield p, V("module", "json")
+            return
+        if name in ("DictExporter", "DictImporter"):
+            yield p, V("class", name)
+            return
         if name in ("getattr", "setattr", "super"):
             yield p, V("builtin", name)
         elif name in ("SymlinkNodeMixin", "AttributeError"):
@@ -49,12 +55,24 @@ class AttrExec(SeqExec):
         return SeqExec.truth(self, v, p, e)
 
     def attr_load(self, obj, attr, p, e):
+        if obj.k == "module" and obj.t == "json" and attr in ("dumps", "dump", "loads", "load"):
+            yield p, V("jsonfn", attr)
+            return
+        if obj.k == "helper" and attr in ("export", "import_"):
+            yield p, V("helpermethod", (obj, attr))
+            return
         if obj.k == "obj" and obj.t == "self0":
             fields = p.extra["objs"]["self0"]
             if attr in fields:
-                self.effect(p, "read-own", attr)
+                if not getattr(self.spec, "plain_object", False):
+                    self.effect(p, "read-own", attr)
                 yield p, fields[attr]
                 return
+            if getattr(self.spec, "plain_object", False):
+                for c_ in self.reg.mro(obj.x):
+                    if (c_, self.mangle(attr)) in self.reg.methods:
+                        yield p, V("bound", (obj, c_, self.mangle(attr)))
+                        return
             raise Unsupported("read of self.%s before it is set" % attr)
         if obj.k == "ref" and attr == "__dict__":
             yield p, V("dictof", obj.t)
@@ -62,6 +80,15 @@ class AttrExec(SeqExec):
         raise Unsupported("attribute load .%s on %r" % (attr, obj))
 
     def attr_store(self, obj, attr, v, p, tgt):
+        if obj.k == "helper":
+            # attribute store on the dict exporter handed in / created: recorded (it is a side effect on that object)
+            self.effect(p, "helper-store", obj, attr, v)
+            st = dict(p.extra.get("helperattrs", {}))
+            st[(obj.t, attr)] = v
+            p.extra["helperattrs"] = st
+            return [p]
+        if obj.k == "obj" and obj.t == "self0" and getattr(self.spec, "plain_object", False):
+            raise Unsupported("store on self in %s" % self.fi.name)
         if obj.k == "obj" and obj.t == "self0":
             # an assignment on the symlink instance goes through the class's __setattr__ (its contract)
             spec = self.reg.methods.get(("SymlinkNodeMixin", "__setattr__"))
@@ -78,7 +105,68 @@ class AttrExec(SeqExec):
             return out
         raise Unsupported("attribute store .%s on %r" % (attr, obj))
 
+    def truth(self, v, p, e=None):
+        if v.k == "opthelper":
+            return v.t[0]
+        if v.k == "helper":
+            return BoolVal(True)
+        return SeqExec.truth(self, v, p, e)
+
+    def is_compare(self, l, r, p, e):
+        for a_, b_ in ((l, r), (r, l)):
+            if b_.k == "ref" and b_.t is NONE and a_.k == "optval":
+                return Not(a_.t[0])
+        return SeqExec.is_compare(self, l, r, p, e)
+
+    def narrow(self, v, truthy):
+        if v.k == "opthelper" and truthy:
+            return V("helper", v.t[1])
+        return v
+
+    def coerce(self, v, kind, p):
+        if kind == "any":
+            return v
+        return SeqExec.coerce(self, v, kind, p)
+
+    def json_call(self, e, p):
+        """json.dumps/dump/loads/load(..., **self.kwargs) and helper.export / helper.import_: uninterpreted, recorded with their
+        exact arguments"""
+        f = e.func
+        for q, fv in self.ev(f, p):
+            pos_nodes = list(e.args)
+            star = [k for k in e.keywords if k.arg is None]
+            named = [k for k in e.keywords if k.arg is not None]
+            for q2, vs in self.evs(pos_nodes + [k.value for k in star] + [k.value for k in named], q):
+                pos = vs[:len(pos_nodes)]
+                stars = vs[len(pos_nodes):len(pos_nodes) + len(star)]
+                kws = dict(zip([k.arg for k in named], vs[len(pos_nodes) + len(star):]))
+                if fv.k == "jsonfn":
+                    rid = len(q2.extra.get("effects", []))
+                    res = V("opaque", ("json." + fv.t, rid))
+                    self.effect(q2, "json." + fv.t, tuple(pos), tuple(stars), tuple(sorted(kws.items())), res)
+                    yield q2, res
+                elif fv.k == "helpermethod":
+                    h, m = fv.t
+                    res = V("opaque", (m, len(q2.extra.get("effects", []))))
+                    self.effect(q2, "helper." + m, h, tuple(pos), dict(q2.extra.get("helperattrs", {})), res)
+                    yield q2, res
+                elif fv.k == "class" and fv.t in ("DictExporter", "DictImporter"):
+                    if pos or stars or kws:
+                        raise Unsupported("arguments to the default %s()" % fv.t)
+                    yield q2, V("helper", "default:" + fv.t)
+                elif fv.k == "bound":
+                    obj, c_, m = fv.t
+                    spec = self.reg.methods[(c_, m)]
+                    for q3, res in self.apply_named(spec, [obj] + pos, kws, q2, "call:%s.%s" % (c_, m)):
+                        self.effect(q3, "call:" + m, tuple(pos), res)
+                        yield q3, res
+                else:
+                    raise Unsupported("call %s" % ast.unparse(e))
+
     def call(self, e, p):
+        if getattr(self.spec, "plain_object", False):
+            yield from self.json_call(e, p)
+            return
         f = e.func
         # super(SymlinkNodeMixin, self).__getattr__(name) / .__setattr__(name, value)
         if isinstance(f, ast.Attribute) and isinstance(f.value, ast.Call) and isinstance(f.value.func, ast.Name) \
